@@ -477,6 +477,11 @@ def check_retire(ctx):
     R.dom(ctx, inst, body, ret, pushes, "retire_extent precedes queuing the extent for marker writes", a_desc="Record::retire_extent")
 
 
+def _reachable_without(body, node, blocked_edges):
+    r, _ = A.reach(body, [body.entry], blocked_edges=frozenset(blocked_edges), sensitive=False)
+    return node in r
+
+
 def check_journal_position(ctx):
     """an acknowledged batch stays safe against a later torn journal write only if every new journal record goes to the slot
     that does not hold the newest valid one, across restarts too (shared with C04.position)"""
@@ -484,11 +489,10 @@ def check_journal_position(ctx):
     C04.check_position(ctx, "C02.journal-position")
 
 
-def check_successor(ctx):
+def check_successor(ctx, inst="C02.successor"):
     """Record::successor_is_durable_or_deleted is the licence to destroy an acknowledged generation: its `true` must mean
     a durable (sector > 0) or deleted (refcount == 0, no successor) tail was actually reached, and the memo flag
     successor_safe must be set only once that verdict is known"""
-    inst = "C02.successor"
     b = ctx.fn("Record::successor_is_durable_or_deleted", inst)
     if b is None:
         return
@@ -520,7 +524,19 @@ def check_successor(ctx):
     def sec_pos(e):
         return e.k == "bin" and e.extra == "Lt" and e.a[0].k == "const" and (e.a[0].extra or {}).get("val") == 0 and any(c.nid in sec for c in e.a[1].calls())
     ctx.check(len(A.pred_switches(b, sec_pos)) == 1, inst, "PIN", b.path, "durable means sector > 0 (strict)", None)
-    edges = A.pred_edges(b, sec_pos, "true") + A.pred_edges(b, rc_zero, "true")
+    edges = A.pred_edges(b, sec_pos, "true")
+    # a dead generation (refcount == 0) ends the walk only if it is the *tail*: its successor link is read again after the
+    # refcount and found empty. A dead generation that has a successor was merely superseded before it was written and the
+    # walk must go on through it (its successor may be a live, not yet durable generation that still borrows our extent).
+    succ_gets = R.call("OnceLock::get").filter(lambda bb, n: R.recv_expr(bb, n).has_field("Record", "successor"), "successor.get")(b)
+    rc_true = A.pred_edges(b, rc_zero, "true")
+    tail_gets = []
+    for g in succ_gets:
+        # is this get reachable from entry only through a refcount == 0 edge?
+        if not _reachable_without(b, g, rc_true):
+            tail_gets.append(g)
+    ctx.check(len(tail_gets) >= 1, inst, "PIN", b.path, "the successor link of a dead generation is re-read after its refcount (tail test)", None)
+    edges += R.guard_edges_for_call(b, tail_gets, "None")
     memo = R.call("Atomic::load", "AtomicBool::load").filter(on_field("successor_safe"), "memo load")(b)
     ctx.check(len(memo) == 2, inst, "anchor", b.path, "two memo loads (self, walked generation)", None)
     edges += A.pred_edges(b, lambda e: any(c.nid in memo for c in e.calls()) and e.k == "call", "true")
